@@ -111,10 +111,32 @@ func runC12Stream(ops []c12Op) (trace []string, finalClosed []int, findings []Mo
 		}
 		return false
 	}
+	// a call on the manager or on a handle that does not come back is a violation by itself (and
+	// must not hang the check): the case ends there
+	hung := false
+	watch := func(what string, f func()) bool {
+		done := make(chan struct{})
+		go func() { f(); close(done) }()
+		select {
+		case <-done:
+			return true
+		case <-time.After(3 * time.Second):
+			hung = true
+			findings = append(findings, MonitorFinding{"C12/call-never-returned:" + what, what + " did not return within 3 s", map[string]interface{}{"ops": ops, "trace": trace}})
+			return false
+		}
+	}
 	for _, op := range ops {
+		if hung {
+			return
+		}
 		switch op.Kind {
 		case "acquire":
-			h, err := mgr.ListenStream(addr)
+			var h service.StreamListener
+			var err error
+			if !watch("ListenStream", func() { h, err = mgr.ListenStream(addr) }) {
+				return
+			}
 			if err != nil {
 				findings = append(findings, MonitorFinding{"C12/acquire-failed", err.Error(), ops})
 				continue
@@ -182,7 +204,9 @@ func runC12Stream(ops []c12Op) (trace []string, finalClosed []int, findings []Mo
 			if op.H >= len(handles) {
 				continue
 			}
-			handles[op.H].Close()
+			if !watch("Close", func() { handles[op.H].Close() }) {
+				return
+			}
 			if !closedH[op.H] {
 				openN--
 				if openN == 0 {
@@ -216,7 +240,10 @@ func runC12Stream(ops []c12Op) (trace []string, finalClosed []int, findings []Mo
 	// end: close everything, let the dust settle
 	for h := range handles {
 		if !closedH[h] {
-			handles[h].Close()
+			h := h
+			if !watch("Close", func() { handles[h].Close() }) {
+				return
+			}
 			closedH[h] = true
 			openN--
 			rebind()
